@@ -18,6 +18,11 @@ for l in open(os.path.join(VERIF, 'properties.jsonl')):
     PROP[d['id']] = d['title']
 
 NEEDS = {
+ 'C08f-selector-bound-max-trees': 'a crafted block declaring fewer than 6 trees with a selector MTF value in num_trees..5 (uninitialised mtf[]/tree[] then decide the decode); visible to valgrind/MSan or as acceptance of an invalid stream',
+ 'C14f-scan-skips-last-two-words': 'a block header whose 48-bit magic ends in word n-2 of an n-word input block (in-process; the sequential parser hides it from the output)',
+ 'C15f-stream-crc-halves-local-diff': 'a stored stream CRC straddling an input-block boundary exactly at its midpoint, flipped bit in the high half',
+ 'C17f-opathn-before-open': 'FILE operand, no -f, output name already exists AND the "skipping" diagnostic cannot be written (stderr closed or /dev/full): cleanup() unlinks the pre-existing file',
+ 'C19f-copy-in-slots-4': '-cdf copy of > 196612 bytes with the sink three blocks behind the source (late pipe reader)',
  'C04f-lookahead-at-buffer-end': '--sequential (or in-process split buffers); an input-chunk boundary exactly at capacity-1 encoded bytes whose last three bytes start a run, the next chunk starting with a different byte',
  'C06f-stream2-level-not-stored': 'a concatenated file whose later stream has a HIGHER level digit than the first and a block larger than first_level*100000 bytes',
  'C13f-test-mode-fastpath-leaks-outbuf': '-t/--test on an input whose decompressed size is large (concatenated bombs); -d/-dc and compression do not reach the branch',
